@@ -760,6 +760,24 @@ Proof.
   unfold doc_ischema. cbn [fold_right snd]. rewrite (ivalue_doc v H1). cbn. apply IH; assumption.
 Qed.
 
+(* enforced character ranges of collection ids lie inside the documented alphabet *)
+Definition ranges_sub (a b : list (N * N)) : bool :=
+  forallb (fun r => existsb (fun s => (fst s <=? fst r)%N && (snd r <=? snd s)%N) b) a.
+Lemma ranges_sub_runes : forall a b l, ranges_sub a b = true -> runes_ok a l = true -> runes_ok b l = true.
+Proof.
+  intros a b l S H. unfold runes_ok in *. rewrite forallb_forall in *. intros x Hx.
+  specialize (H x Hx). apply existsb_exists in H. destruct H as [r [Hr Hin]].
+  unfold ranges_sub in S. rewrite forallb_forall in S. specialize (S r Hr).
+  apply existsb_exists in S. destruct S as [t [Ht Hsub]].
+  apply existsb_exists. exists t. split; [exact Ht|].
+  apply andb_true_iff in Hin. destruct Hin as [H1 H2].
+  apply andb_true_iff in Hsub. destruct Hsub as [H3 H4].
+  apply N.leb_le in H1, H2, H3, H4. apply andb_true_iff. split; apply N.leb_le; lia.
+Qed.
+Lemma id_runes_side_ok :
+  ranges_sub enf_v2_collection_id_runes alnum_ranges = true /\ ranges_sub enf_v1_collection_id_runes alnum_ranges = true.
+Proof. vm_compute. split; reflexivity. Qed.
+
 Lemma create2_doc : forall r, validate_create2 r = true -> nogap_create2 r = true -> doc_create2 r = 0%N.
 Proof.
   intros r H G. pose proof schema_side_ok as SS. unfold schema_side in SS. split_side SS.
@@ -767,6 +785,7 @@ Proof.
   unfold nogap_create2 in G.
   unfold validate_ischema in *. rewrite ?gate_true in * by assumption.
   unfold doc_create2. apply first_code_zero. repeat constructor; cbn [fst]; try use_sub.
+  - apply orb_true_iff. right. eapply ranges_sub_runes; [exact (proj1 id_runes_side_ok)|assumption].
   - rewrite G. apply orb_true_r.
   - rewrite ischema_doc by assumption. reflexivity.
 Qed.
@@ -960,7 +979,8 @@ Lemma create1_doc : forall r, validate_create1 r = true -> doc_create1 r = 0%N.
 Proof.
   intros r H. pose proof points_side_ok as PS. unfold points_side in PS. split_side PS.
   unfold validate_create1 in H. peel H Vm. peel H Vs. peel H Vr.
-  unfold doc_create1. apply first_code_zero. repeat constructor; cbn [fst]; use_sub.
+  unfold doc_create1. apply first_code_zero. repeat constructor; cbn [fst]; try use_sub.
+  apply orb_true_iff. right. eapply ranges_sub_runes; [exact (proj2 id_runes_side_ok)|assumption].
 Qed.
 
 Lemma search1_doc : forall r, validate_search1 r = true -> doc_search1 r = true.
